@@ -372,7 +372,7 @@ func (s *Sched) Loop() {
 		if pick == "" {
 			// free choice from the run's PRNG (also the deterministic fallback where a recorded schedule no longer
 			// applies, e.g. while a plan is being minimised)
-			if s.Windows && s.rng.IntN(3) == 0 {
+			if s.Windows && s.rng.IntN(2) == 0 {
 				var elig []string
 				for _, n := range enabled {
 					if n != ClockChoice && windowEligible(s.parked[n].point) {
